@@ -156,6 +156,152 @@ Proof.
   destruct (item_fit (fst s1) i); exact K1.
 Qed.
 
+(* ... nor any container reference, class or loaded flag *)
+Definition lcv (it : item) := (i_cls it, i_cont it, i_loaded it).
+Definition LC (w w' : world) : Prop := forall j, option_map lcv (get_item w' j) = option_map lcv (get_item w j).
+Lemma LC_refl w : LC w w. Proof. intros j; reflexivity. Qed.
+Lemma LC_trans a b c : LC a b -> LC b c -> LC a c.
+Proof. intros H1 H2 j. now rewrite H2, H1. Qed.
+Lemma LC_fail w e : LC w (fail w e).
+Proof. intros j. now rewrite get_fail. Qed.
+Lemma LC_put w i old new : get_item w i = Some old -> lcv new = lcv old -> LC w (put_item w i new).
+Proof.
+  intros Hi Hk j. destruct (Nat.eq_dec j i) as [->|N].
+  - rewrite get_put_item_same', Hi. cbn. now rewrite Hk.
+  - now rewrite get_put_item_other.
+Qed.
+Lemma LC_upd w i g : (forall it, lcv (g it) = lcv it) -> LC w (upd_item w i g).
+Proof. intros H. unfold upd_item. destruct (get_item w i) as [it|] eqn:E; [|apply LC_fail]. eapply LC_put; eauto. Qed.
+Lemma LC_run_only w w' i : run_only w w' i -> LC w w'.
+Proof.
+  intros ((_ & G) & R & N) j. destruct (Nat.eq_dec j i) as [->|Nj]; [|now rewrite (G j Nj)].
+  destruct (get_item w i) as [it|] eqn:E.
+  - destruct (R it eq_refl) as (r & G'). rewrite G'. reflexivity.
+  - now rewrite (N eq_refl).
+Qed.
+Lemma LC_with_msgs (s : st) f g : (forall w, LC w (fst (g w))) -> LC (fst s) (fst (with_msgs s f g)).
+Proof. intros H. unfold with_msgs. specialize (H (fst s)). destruct (g (fst s)) as [w m]. exact H. Qed.
+Lemma LC_lift_fail (s : st) e : LC (fst s) (fst (lift s (fun w => fail w e))).
+Proof. unfold lift. cbn [fst]. apply LC_fail. Qed.
+Lemma LC_state_update_msgs w i a b : LC w (fst (state_update_msgs w i a b)).
+Proof.
+  unfold state_update_msgs. destruct (is_loaded w i); [|apply LC_refl].
+  pose proof (eu_run_only w i) as H. destruct (effects_update w i). cbn [fst] in *. now apply (LC_run_only _ _ i).
+Qed.
+Lemma LC_state_fold old new l : forall w ms,
+  LC w (fst (fold_left (fun (acc : world * list msg) ch =>
+                          let (w, ms) := acc in
+                          if is_container_state w ch
+                          then let (w, m2) := state_update_msgs w ch old new in (w, ms ++ m2)
+                          else (w, ms)) l (w, ms))).
+Proof.
+  induction l as [|ch r IH]; intros w ms; cbn [fold_left]; [apply LC_refl|].
+  destruct (is_container_state w ch); [|apply IH].
+  pose proof (LC_state_update_msgs w ch old new) as H1. destruct (state_update_msgs w ch old new) as [w1 m2]. cbn [fst] in H1.
+  eapply LC_trans; [exact H1|apply IH].
+Qed.
+
+Lemma state_set_op_LC s i new : LC (fst s) (fst (fst (state_set_op s i new))).
+Proof.
+  unfold state_set_op. destruct (get_item (fst s) i) as [it|] eqn:Hi; [|apply LC_lift_fail].
+  destruct (i_state it =? new)%Z; [apply LC_refl|].
+  set (s1 := lift s _).
+  assert (K1 : LC (fst s) (fst s1)) by (unfold s1, lift; cbn [fst]; eapply LC_put; eauto).
+  destruct (item_fit (fst s1) i) as [f|]; cbn [fst]; [|exact K1].
+  eapply LC_trans; [exact K1|]. apply LC_with_msgs.
+  intros w. pose proof (LC_state_update_msgs w i (i_state it) new) as F1.
+  destruct (state_update_msgs w i (i_state it) new) as [w1 m1]. cbn [fst] in F1.
+  eapply LC_trans; [exact F1|apply LC_state_fold].
+Qed.
+Lemma target_set_op_LC s i new : LC (fst s) (fst (fst (target_set_op s i new))).
+Proof.
+  unfold target_set_op. destruct (get_item (fst s) i) as [it|] eqn:Hi; [|apply LC_lift_fail].
+  destruct (onat_eqb (i_target it) new); [apply LC_refl|].
+  destruct (item_fit (fst s) i) as [f|]; cbn [fst].
+  - match goal with |- context[match ?X with Some _ => _ | None => _ end] =>
+      match X with fold_right _ _ _ => destruct X as [pe|] end end; [|apply LC_lift_fail].
+    cbn [fst].
+    set (s1 := match i_target it with Some o => emit_always s f _ | None => s end).
+    assert (E1 : fst s1 = fst s) by (subst s1; destruct (i_target it); reflexivity).
+    set (s2 := lift s1 (fun w => upd_item w i (fun it0 => it_set_target it0 new))).
+    assert (K2 : LC (fst s) (fst s2)).
+    { unfold s2, lift. cbn [fst]. rewrite E1. apply LC_upd. reflexivity. }
+    destruct new; exact K2.
+  - eapply LC_put; eauto.
+Qed.
+Lemma mode_set_op_LC s i e m : LC (fst s) (fst (fst (mode_set_op s i e m))).
+Proof.
+  unfold mode_set_op. destruct (get_item (fst s) i) as [it|] eqn:Hi; [|apply LC_lift_fail].
+  set (s1 := lift s _).
+  assert (K1 : LC (fst s) (fst s1)) by (unfold s1, lift; cbn [fst]; eapply LC_put; eauto).
+  destruct (item_fit (fst s1) i) as [f|]; cbn [fst]; [|exact K1].
+  eapply LC_trans; [exact K1|]. apply LC_with_msgs. intros w. apply (LC_run_only _ _ i). apply eu_run_only.
+Qed.
+Lemma level_set_op_LC s i l : LC (fst s) (fst (fst (level_set_op s i l))).
+Proof.
+  unfold level_set_op. destruct (get_item (fst s) i) as [it|] eqn:Hi; [|apply LC_lift_fail].
+  destruct (i_level it =? l)%Z; [apply LC_refl|].
+  set (s1 := lift s _).
+  assert (K1 : LC (fst s) (fst s1)) by (unfold s1, lift; cbn [fst]; eapply LC_put; eauto).
+  destruct (item_fit (fst s1) i); exact K1.
+Qed.
+Lemma LS_LC w w' : LC w w' -> same_src w w' -> LS w -> LS w'.
+Proof.
+  intros H Ss L. apply (LS_frame w w' L Ss). intros j jit' Gj Dj. right.
+  specialize (H j). rewrite Gj in H. destruct (get_item w j) as [jit|]; cbn [option_map] in H; [|discriminate].
+  assert (E : lcv jit' = lcv jit) by congruence. unfold lcv in E. exists jit. split; [reflexivity|].
+  split; [unfold direct in *; assert (Ec : i_cls jit = i_cls jit') by congruence; now rewrite Ec|split; congruence].
+Qed.
+
+(* ... nor fits, fleets, solar systems, sources *)
+Lemma S_lift_fail (s : st) e : structure (fst (lift s (fun w => fail w e))) = structure (fst s).
+Proof. unfold lift. cbn [fst]. apply S_fail. Qed.
+Lemma state_set_op_S s i new : structure (fst (fst (state_set_op s i new))) = structure (fst s).
+Proof.
+  unfold state_set_op. destruct (get_item (fst s) i) as [it|] eqn:Hi; [|apply S_lift_fail].
+  destruct (i_state it =? new)%Z; [reflexivity|].
+  set (s1 := lift s _).
+  assert (K1 : structure (fst s1) = structure (fst s)) by (unfold s1, lift; cbn [fst]; apply S_put_item).
+  destruct (item_fit (fst s1) i) as [f|]; cbn [fst]; [|exact K1].
+  rewrite <- K1. apply S_with_msgs.
+  intros w. pose proof (S_state_update_msgs w i (i_state it) new) as F1.
+  destruct (state_update_msgs w i (i_state it) new) as [w1 m1]. cbn [fst] in F1.
+  destruct (FC_state_fold (i_state it) new (state_desc (length (child_items it false) + S (length (w_items w1))) w1 (child_items it false)) w1 m1) as (_ & F2).
+  congruence.
+Qed.
+Lemma target_set_op_S s i new : structure (fst (fst (target_set_op s i new))) = structure (fst s).
+Proof.
+  unfold target_set_op. destruct (get_item (fst s) i) as [it|] eqn:Hi; [|apply S_lift_fail].
+  destruct (onat_eqb (i_target it) new); [reflexivity|].
+  destruct (item_fit (fst s) i) as [f|]; cbn [fst].
+  - match goal with |- context[match ?X with Some _ => _ | None => _ end] =>
+      match X with fold_right _ _ _ => destruct X as [pe|] end end; [|apply S_lift_fail].
+    cbn [fst].
+    set (s1 := match i_target it with Some o => emit_always s f _ | None => s end).
+    assert (E1 : fst s1 = fst s) by (subst s1; destruct (i_target it); reflexivity).
+    set (s2 := lift s1 (fun w => upd_item w i (fun it0 => it_set_target it0 new))).
+    assert (K2 : structure (fst s2) = structure (fst s)).
+    { unfold s2, lift. cbn [fst]. rewrite E1. apply S_upd_item. }
+    destruct new; exact K2.
+  - apply S_put_item.
+Qed.
+Lemma mode_set_op_S s i e m : structure (fst (fst (mode_set_op s i e m))) = structure (fst s).
+Proof.
+  unfold mode_set_op. destruct (get_item (fst s) i) as [it|] eqn:Hi; [|apply S_lift_fail].
+  set (s1 := lift s _).
+  assert (K1 : structure (fst s1) = structure (fst s)) by (unfold s1, lift; cbn [fst]; apply S_put_item).
+  destruct (item_fit (fst s1) i) as [f|]; cbn [fst]; [|exact K1].
+  rewrite <- K1. apply S_with_msgs. intros w. apply S_effects_update.
+Qed.
+Lemma level_set_op_S s i l : structure (fst (fst (level_set_op s i l))) = structure (fst s).
+Proof.
+  unfold level_set_op. destruct (get_item (fst s) i) as [it|] eqn:Hi; [|apply S_lift_fail].
+  destruct (i_level it =? l)%Z; [reflexivity|].
+  set (s1 := lift s _).
+  assert (K1 : structure (fst s1) = structure (fst s)) by (unfold s1, lift; cbn [fst]; apply S_put_item).
+  destruct (item_fit (fst s1) i); exact K1.
+Qed.
+
 (* a new item lists nothing and is listed by nobody *)
 Lemma CP_new_item w a c tid st lvl :
   J w -> CP w -> get_item w a = None -> CP (put_item w a (new_item c tid st lvl)).
@@ -174,6 +320,30 @@ Proof.
     rewrite (Ho x N) in G. now apply (C3 x xit).
 Qed.
 
+Lemma LS_new_item w a c tid st lvl : LS w -> get_item w a = None -> LS (put_item w a (new_item c tid st lvl)).
+Proof.
+  intros L Ha. apply (LS_frame w _ L); [apply same_src_structure; apply S_put_item|].
+  intros j jit' Gj Dj. destruct (Nat.eq_dec j a) as [->|N].
+  - left. rewrite get_put_item_same' in Gj. injection Gj as <-. reflexivity.
+  - right. rewrite get_put_item_other in Gj by exact N. exists jit'. auto.
+Qed.
+(* a fit or a solar system under a new id: nobody refers to it *)
+Lemma same_src_new_fit w f : get_fit w f = None -> same_src w (put_fit w f empty_fit).
+Proof.
+  intros Hf f'. unfold fit_source_id, fit_solsys, get_fit, put_fit. cbn [w_fits set_fits w_ss].
+  destruct (Nat.eq_dec f' f) as [->|N].
+  - rewrite al_get_set_same. unfold get_fit in Hf. rewrite Hf. reflexivity.
+  - rewrite al_get_set_other by congruence. reflexivity.
+Qed.
+Lemma same_src_new_ss w x : get_ss w x = None -> same_src w (put_ss w x (mkSolsys None [])).
+Proof.
+  intros Hx f. unfold fit_source_id, fit_solsys, get_fit, get_ss, put_ss. cbn [w_fits set_sss w_ss].
+  destruct (match al_get neqb (w_fits w) f with Some ft => f_solsys ft | None => None end) as [z|]; [|reflexivity].
+  destruct (Nat.eq_dec z x) as [->|N].
+  - rewrite al_get_set_same. unfold get_ss in Hx. now rewrite Hx.
+  - rewrite al_get_set_other by congruence. reflexivity.
+Qed.
+
 (* ------------------------------------------------------------------ *)
 (* every operation                                                      *)
 
@@ -183,11 +353,13 @@ Definition op_ok3 (w : world) (o : op) : Prop :=
     let w' := set_srcs w (al_set neqb (w_srcs w) src u) in
     FLATs w' /\ forall c cit, get_item w c = Some cit -> ~ direct cit -> NAtid w' (i_tid cit)
   | ONewItem _ c tid _ _ => childcls c -> NAtid w tid
+  | ONewSolsys x => get_ss w x = None
   | OCharge m _ => forall mit, get_item w m = Some mit -> direct mit
   | OSolsysAdd x f =>
     let w1 := upd_fit (ss_set_fits w x (set_add neqb (ss_fit_list w x) f)) f (fun ft => fit_set_solsys ft (Some x)) in
     NoDup (fit_list w1 f) /\ forall j, In j (fit_list w1 f) -> dir_unloaded w1 j
   | OSource x new =>
+    (forall y, get_ss w x = Some y -> onat_eqb (ss_source y) new = false -> LS (fst (src_mid (w, []) x y new))) /\
     forall y, get_ss w x = Some y -> new <> None ->
       let m := fst (src_mid (w, []) x y new) in
       NoDup (flat_map (fit_list m) (ss_fit_list m x)) /\
@@ -195,27 +367,31 @@ Definition op_ok3 (w : world) (o : op) : Prop :=
   | _ => True
   end.
 
-Definition KINV (w : world) : Prop := CI w /\ RT [] w /\ KK w /\ FLATs w /\ CP w.
+Definition KINV (w : world) : Prop := CI w /\ RT [] w /\ KK w /\ FLATs w /\ CP w /\ LS w.
 Lemma KINV_INV w : KINV w -> INV w. Proof. intros (C & R & _). now split. Qed.
-Lemma KINV_KJ w : KINV w -> KJ w. Proof. intros (C & R & K & Fl & Cp). split; [split; [exact R|apply C]|split; [exact K|now split]]. Qed.
+Lemma KINV_KJ w : KINV w -> KJ w. Proof. intros (C & R & K & Fl & Cp & Ls). split; [split; [exact R|apply C]|split; [exact K|split; [exact Fl|now split]]]. Qed.
 
 Theorem md_op_KK w o :
   KINV w -> op_ok2 w o -> op_ok3 w o -> w_err (fst (fst (md_op w o))) = None ->
-  KK (fst (fst (md_op w o))) /\ FLATs (fst (fst (md_op w o))) /\ CP (fst (fst (md_op w o))).
+  KK (fst (fst (md_op w o))) /\ FLATs (fst (fst (md_op w o))) /\ CP (fst (fst (md_op w o))) /\ LS (fst (fst (md_op w o))).
 Proof.
-  intros I (Hok & Hsrc) H3. pose proof (KINV_KJ w I) as KJw. pose proof KJw as (Rw & Kw & Flw & Cpw).
+  intros I (Hok & Hsrc) H3. pose proof (KINV_KJ w I) as KJw. pose proof KJw as (Rw & Kw & Flw & Cpw & Lsw).
   destruct I as (C & RTw & _ & _). pose proof (CI_LD w C) as Ldw.
-  assert (KJ2 : forall w', KJ w' -> KK w' /\ FLATs w' /\ CP w') by (intros w' (_ & H); exact H).
-  assert (KS : forall w', KK w' /\ w_srcs w' = w_srcs w -> FC w w' -> KK w' /\ FLATs w' /\ CP w').
-  { intros w' (H1 & H2) Hf. split; [exact H1|split; [now apply (FLATs_srcs w w')|]].
-    apply (CP_same_l w w'); [now apply FC_same_l|exact Cpw]. }
+  assert (KJ2 : forall w', KJ w' -> KK w' /\ FLATs w' /\ CP w' /\ LS w') by (intros w' (_ & H); exact H).
+  assert (KS : forall w', KK w' /\ w_srcs w' = w_srcs w -> FC w w' -> LC w w' -> structure w' = structure w ->
+                          KK w' /\ FLATs w' /\ CP w' /\ LS w').
+  { intros w' (H1 & H2) Hf Hl Hs. split; [exact H1|split; [now apply (FLATs_srcs w w')|split]].
+    - apply (CP_same_l w w'); [now apply FC_same_l|exact Cpw].
+    - apply (LS_LC w w' Hl); [now apply same_src_structure|exact Lsw]. }
   destruct o; cbn [md_op op_ok op_ok3] in *; cbn [fst].
-  - (* ODefSource *) intros _. unfold lift. cbn [fst]. destruct H3 as (F3 & N3). split; [now apply KK_def_source|split; [exact F3|]].
-    apply (CP_same_l w); [now apply same_l_items|exact Cpw].
-  - (* ONewItem *) intros _. unfold lift. cbn [fst]. destruct Hok as (Hi & _). split; [|split].
+  - (* ODefSource *) intros _. unfold lift. cbn [fst]. destruct H3 as (F3 & N3). split; [now apply KK_def_source|split; [exact F3|split]].
+    + apply (CP_same_l w); [now apply same_l_items|exact Cpw].
+    + apply (LS_frame w _ Lsw); [intros f0; reflexivity|]. intros j jit' Gj Dj. right. exists jit'. auto.
+  - (* ONewItem *) intros _. unfold lift. cbn [fst]. destruct Hok as (Hi & _). split; [|split; [|split]].
     + apply KK_new_item; [apply C|exact Kw|exact Hi|exact H3].
     + now apply (FLATs_srcs w).
     + apply CP_new_item; [apply C|exact Cpw|exact Hi].
+    + apply LS_new_item; [exact Lsw|exact Hi].
   - (* ONewFit *)
     destruct Hok as (Hf & Hc & Hlt). intros He.
     set (w1 := put_item (put_fit w f empty_fit) chr (new_item CCharacter TypeId_character_static State_offline 0)).
@@ -226,10 +402,13 @@ Proof.
     assert (K1 : KK w1).
     { apply KK_new_direct; [exact K0|exact Hc|]. unfold direct. cbn. discriminate. }
     apply KJ2. apply (slot_set_op_KJ (w1, []) f SlCharacter (Some chr)); [|..|exact He].
-    + split; [exact R1|split; [exact K1|split; [now apply (FLATs_srcs w)|]]].
-      apply CP_new_item; [apply (CI_new_fit w f C Hf)|apply (CP_same_l w); [now apply same_l_items|exact Cpw]|exact Hc].
+    + split; [exact R1|split; [exact K1|split; [now apply (FLATs_srcs w)|split]]].
+      * apply CP_new_item; [apply (CI_new_fit w f C Hf)|apply (CP_same_l w); [now apply same_l_items|exact Cpw]|exact Hc].
+      * apply LS_new_item; [|exact Hc]. apply (LS_frame w _ Lsw); [now apply same_src_new_fit|].
+        intros j jit' Gj Dj. right. exists jit'. auto.
     + intros o Ho. exact (slot_occupant_direct w1 f SlCharacter o C1 Ho).
-  - (* ONewSolsys *) intros _. unfold lift. cbn [fst]. apply KJ2. eapply KJ_same_is; [|exact KJw]. repeat split.
+  - (* ONewSolsys *) intros _. unfold lift. cbn [fst]. apply KJ2. eapply KJ_same_is; [|exact KJw].
+    split; [repeat split|now apply same_src_new_ss].
   - intros He. apply KJ2. apply (slot_set_op_KJ (w, []) f k v KJw); [|exact He].
     intros o Ho. exact (slot_occupant_direct w f k o C Ho).
   - intros He. apply KJ2. now apply (set_add_op_KJ (w, [])).
@@ -244,30 +423,35 @@ Proof.
   - intros He. apply KJ2. now apply (rack_free_KJ (w, [])).
   - intros He. apply KJ2. now apply (rack_clear_KJ (w, [])).
   - intros He. apply KJ2. now apply (charge_set_op_KJ (w, [])).
-  - intros He. apply KS; [apply (state_set_op_KK (w, [])); [apply C|exact Kw|exact He]|apply (state_set_op_FC (w, []))].
-  - intros _. apply KS; [now apply (target_set_op_KK (w, []))|apply (target_set_op_FC (w, []))].
-  - intros He. apply KS; [now apply (mode_set_op_KK (w, []))|apply (mode_set_op_FC (w, []))].
-  - intros _. apply KS; [now apply (level_set_op_KK (w, []))|apply (level_set_op_FC (w, []))].
+  - intros He. apply KS; [apply (state_set_op_KK (w, [])); [apply C|exact Kw|exact He]|apply (state_set_op_FC (w, []))
+                         |apply (state_set_op_LC (w, []))|apply (state_set_op_S (w, []))].
+  - intros _. apply KS; [now apply (target_set_op_KK (w, []))|apply (target_set_op_FC (w, []))
+                        |apply (target_set_op_LC (w, []))|apply (target_set_op_S (w, []))].
+  - intros He. apply KS; [now apply (mode_set_op_KK (w, []))|apply (mode_set_op_FC (w, []))
+                         |apply (mode_set_op_LC (w, []))|apply (mode_set_op_S (w, []))].
+  - intros _. apply KS; [now apply (level_set_op_KK (w, []))|apply (level_set_op_FC (w, []))
+                        |apply (level_set_op_LC (w, []))|apply (level_set_op_S (w, []))].
   - intros _. apply KJ2. now apply (fleet_add_op_KJ (w, [])).
   - intros _. apply KJ2. now apply (fleet_remove_op_KJ (w, [])).
   - intros _. apply KJ2. now apply (fleet_clear_op_KJ (w, [])).
   - intros He. apply KJ2. now apply (solsys_add_op_KJ (w, [])).
   - intros He. apply KJ2. now apply (solsys_remove_op_KJ (w, [])).
   - intros He. apply KJ2. now apply (solsys_clear_op_KJ (w, [])).
-  - intros He. apply KJ2. now apply (source_set_op_KJ (w, [])).
-  - intros _. split; [exact Kw|split; [exact Flw|exact Cpw]].
-  - intros _. split; [exact Kw|split; [exact Flw|exact Cpw]].
-  - intros _. split; [exact Kw|split; [exact Flw|exact Cpw]].
-  - intros _. split; [exact Kw|split; [exact Flw|exact Cpw]].
+  - intros He. destruct H3 as (H3a & H3b). apply KJ2. now apply (source_set_op_KJ (w, [])).
+  - intros _. split; [exact Kw|split; [exact Flw|split; [exact Cpw|exact Lsw]]].
+  - intros _. split; [exact Kw|split; [exact Flw|split; [exact Cpw|exact Lsw]]].
+  - intros _. split; [exact Kw|split; [exact Flw|split; [exact Cpw|exact Lsw]]].
+  - intros _. split; [exact Kw|split; [exact Flw|split; [exact Cpw|exact Lsw]]].
 Qed.
 
 Lemma KINV_clear_err w : KINV w -> KINV (clear_err w).
 Proof.
-  intros (C & R & K & Fl & Cp). split; [now apply CI_clear_err|split; [|split; [|split]]].
+  intros (C & R & K & Fl & Cp & Ls). split; [now apply CI_clear_err|split; [|split; [|split; [|split]]]].
   - eapply RT_same_is; [|exact R]. repeat split.
   - eapply KK_same_is; [|exact K]. repeat split.
   - now apply (FLATs_srcs w).
   - apply (CP_same_l w); [now apply same_l_items|exact Cp].
+  - apply (LS_same_isf w); [|exact Ls]. split; [repeat split|intros f; reflexivity].
 Qed.
 
 (* a history is clean when every call respects the caller obligations (those of proofs/Runs_p.v and
@@ -290,7 +474,7 @@ Proof.
     pose proof (md_op_RT _ o (KINV_INV _ I) Hok) as R'.
     pose proof (md_op_KK _ o I Hok H3) as K'.
     destruct (md_op (clear_err (s_w x)) o) as [[w' evs] r]. cbn [fst s_w] in *. intros He.
-    destruct (K' He) as (K1 & K2 & K3). split; [exact C'|split; [now apply R'|split; [exact K1|now split]]].
+    destruct (K' He) as (K1 & K2 & K3 & K4). split; [exact C'|split; [now apply R'|split; [exact K1|split; [exact K2|now split]]]].
 Qed.
 
 Theorem run_KINV ops : forall x, KINV (s_w x) -> ops_clean3 x ops -> KINV (s_w (run x ops)).
@@ -301,12 +485,13 @@ Qed.
 
 Lemma KINV_empty : KINV empty_world.
 Proof.
-  split; [apply CI_empty|split; [|split; [|split]]].
+  split; [apply CI_empty|split; [|split; [|split; [|split]]]].
   - intros j it _ H. discriminate.
   - constructor; intros. all: match goal with H : get_item empty_world _ = Some _ |- _ => discriminate H | _ => idtac end.
     intros j it _ H. discriminate.
   - intros tid s u t H. discriminate.
   - split; [|split]; intros; match goal with H : get_item empty_world _ = Some _ |- _ => discriminate H end.
+  - intros j jit src H. discriminate H.
 Qed.
 
 (* from the empty system, after any clean history: a charge or an autocharge runs
@@ -401,6 +586,16 @@ Proof.
   - intros j I. rewrite forallb_forall in H2. now apply dir_unloadedb_ok, H2.
 Qed.
 
+Lemma onat_eqb_eq a b : onat_eqb a b = true -> a = b.
+Proof. destruct a, b; cbn; try discriminate; [intros H; apply Nat.eqb_eq in H; now subst|reflexivity]. Qed.
+Lemma LSb_ok w : LSb w = true -> LS w.
+Proof.
+  unfold LSb, LS. intros H j jit src G D El. rewrite forallb_forall in H. unfold get_item in G.
+  destruct (al_get_some_in _ _ _ _ G) as (j' & I). specialize (H (j', jit) I). cbn [snd] in H.
+  apply directb_ok in D. rewrite D, El in H. destruct (fit_of_place (i_cont jit)) as [f|]; [|discriminate].
+  exists f. split; [reflexivity|now apply onat_eqb_eq].
+Qed.
+
 Lemma op_okb3_ok w o : op_okb3 w o = true -> op_ok3 w o.
 Proof.
   destruct o; cbn [op_okb3 op_ok3]; auto.
@@ -409,9 +604,13 @@ Proof.
     destruct (al_get_some_in _ _ _ _ G) as (c' & I). specialize (H2 (c', cit) I). cbn in H2.
     destruct (directb cit) eqn:E; [apply directb_ok in E; contradiction|]. now apply NAtidb_ok.
   - intros H [->| ->]; now apply NAtidb_ok.
+  - intros H. destruct (get_ss w s); [discriminate|reflexivity].
   - intros H mit G. rewrite G in H. now apply directb_ok.
   - apply list_okb_ok.
-  - intros H y Gy Hn. rewrite Gy in H. destruct src as [sid|]; [|congruence]. now apply list_okb_ok.
+  - intros H. split.
+    + intros y Gy Hne. rewrite Gy in H. apply andb_true_iff in H as (H1 & _). rewrite Hne in H1. now apply LSb_ok.
+    + intros y Gy Hn. rewrite Gy in H. apply andb_true_iff in H as (_ & H2).
+      destruct src as [sid|]; [|congruence]. now apply list_okb_ok.
 Qed.
 
 Fixpoint ops_clean3b (x : sys) (ops : list op) : bool :=
@@ -458,7 +657,7 @@ Theorem item_containers_consistent pen ops :
   (forall i it, get_item w i = Some it -> i_loaded it = None -> i_autos it = []).
 Proof.
   intros H w.
-  pose proof (run_KINV ops (init_sys pen) KINV_empty (ops_clean3b_ok ops _ H)) as (_ & _ & K & _ & (C1 & C2 & C3)).
+  pose proof (run_KINV ops (init_sys pen) KINV_empty (ops_clean3b_ok ops _ H)) as (_ & _ & K & _ & (C1 & C2 & C3) & _).
   split; [|split; [|split; [exact C3|exact (kk_au _ K)]]].
   - intros c m. split.
     + intros (cit & G & E). exact (proj1 (kk_pc _ K c cit m G) E).
@@ -466,4 +665,19 @@ Proof.
   - intros a m. split.
     + intros (ait & G & E). exact (proj2 (kk_pc _ K a ait m G) E).
     + intros (mit & G & E). exact (C2 m mit a G E).
+Qed.
+
+(* C14, base layer: after every clean history a directly held item that is loaded is in a container of a fit
+   and is loaded from the source the solar system of that fit has NOW -- nothing stays loaded from a source that
+   was switched away, from a solar system the fit has left, or after the item left its fit. (At a source switch
+   the hypothesis op_okb3 includes this statement for the moment between unloading and reloading; everywhere
+   else it is proved outright.) *)
+Theorem loaded_from_current_source pen ops :
+  ops_clean3b (init_sys pen) ops = true ->
+  let w := s_w (run (init_sys pen) ops) in
+  forall j jit src, get_item w j = Some jit -> direct jit -> i_loaded jit = Some src ->
+    exists f, fit_of_place (i_cont jit) = Some f /\ fit_source_id w f = Some src.
+Proof.
+  intros H w. pose proof (run_KINV ops (init_sys pen) KINV_empty (ops_clean3b_ok ops _ H)) as (_ & _ & _ & _ & _ & L).
+  exact L.
 Qed.
